@@ -122,6 +122,9 @@ def run(ctx):
         else:
             ctx.ok("R05.2", key, "%d of %d emitted token sequences accepted" % (len(chosen), len(seqs)))
     ctx.floor("R05.2", "writer_parser_pairs", n_pairs, 8)
+    # the writer prints text operands verbatim; reading them back equal needs the reader to have stored them verbatim
+    from rules import lefrules as lr
+    lr.rule_text_verbatim(ctx, "R05.3")
     ctx.count("token_sequences_simulated", n_seqs)
 
     # ---- R05.1 writer reads every field
